@@ -3581,11 +3581,16 @@ class DecVar(Vars):
         if isinstance(scens, Scen):
             if scens.ambset.model is not self.dro_model:
                 raise ValueError('Models mismatch.')
-            events = scens.series
+            # a Scen object holds scenario positions: turn them back into
+            # the labels the lookups below expect
+            positions = scens.series
+            positions = ([positions] if isinstance(positions, Real)
+                         else list(positions))
+            events = list(self.dro_model.series_scen.index[positions])
         else:
             events = scens
-        # events = list(events) if isinstance(events, Iterable) else [events]
-        events = [events] if isinstance(events, (str, Real)) else list(events)
+            events = ([events] if isinstance(events, (str, Real))
+                      else list(events))
 
         for event in events:
             index = self.dro_model.series_scen[event]
